@@ -2,7 +2,7 @@
 """C09 Tag selection with inheritance selects exactly the matching scenarios."""
 from ..report import run_parallel
 from . import common as T
-from .. import rules_select, rules_status
+from .. import rules_select, rules_status, rules_parser
 
 EXPLANATION = (
     "Static analysis; the value of the tag expression itself is an input (C07/C08). G1: effective_tags evaluated "
@@ -15,7 +15,9 @@ EXPLANATION = (
     "effective_tags (not own tags) to the expression; Feature/Rule/ScenarioOutline: own match or any child's, over child "
     "lists of every length. G6: Scenario.run explored for every step sequence: a not-selected scenario calls no hook, "
     "runs no step, sets every step skipped, and emits formatter events only under show_skipped. G7: the roll-up "
-    "obligations R3(c),(f): all children skipped <=> container skipped; a passed/failed child prevents skipped. "
+    "obligations R3(c),(f) - G8: every parser method that hands the pending tag list to a model element (feature, rule, "
+    "scenario, outline, examples) rebinds it to a fresh list afterwards, so tags neither leak into the next statement nor "
+    "are later tag lines added to an earlier element - R3(c),(f): all children skipped <=> container skipped; a passed/failed child prevents skipped. "
     + T.SOUNDNESS)
 NOT_DECIDED = "the truth value of a tag expression for a tag set (C07/C08); active-tag exclusion (C19)"
 
@@ -26,6 +28,7 @@ def t_select(chk, ix):
     rules_select.check_should_run_table(chk, ix)
     rules_select.check_tag_consultation(chk, ix)
     rules_select.check_builder_effects(chk, ix, ("B3", "G3", "G2"))
+    rules_parser.check_tags_consumed(chk, ix, "G8")
 
 
 def t_rollup(chk, ix):
@@ -39,5 +42,5 @@ def t_rollup(chk, ix):
 
 def run(chk, ix, tier):
     run_parallel(chk, [(t_select, ()), (t_rollup, ()), (T.t_scenario, (("G6", "H2"),))] + T.container_tasks(("R4", "H2")))
-    for r, n in (("G1", 8), ("G2", 6), ("G4", 16), ("G5", 4), ("G6", 1), ("G7", 4)):
+    for r, n in (("G1", 8), ("G2", 6), ("G4", 16), ("G5", 4), ("G6", 1), ("G7", 4), ("G8", 5)):
         chk.require_instances(r, n)
